@@ -14,8 +14,9 @@ MIN_STR = 8      # room for the replay's unique "v<id>_" prefix
 
 
 class SyncWorld(World):
-    def __init__(self, I, ctx, nrep, uuids=(1,), props=('p', 'q'), ts_range=None):
+    def __init__(self, I, ctx, nrep, uuids=(1,), props=('p', 'q'), ts_range=None, max_str=MAX_STR):
         super().__init__(I, ctx)
+        self.max_str = max_str
         self.uuids, self.props = list(uuids), list(props)
         self.server = ModelServer(self)
         self.dbs = [self.new_taskdb() for _ in range(nrep)]
@@ -31,7 +32,7 @@ class SyncWorld(World):
     def fresh_value(self):
         self.nval += 1
         t = self.ctx.fresh_int('val')
-        self.ctx.assume(z3.And(t >= 1, t <= 1000, STRLEN(t) >= MIN_STR, STRLEN(t) <= MAX_STR))
+        self.ctx.assume(z3.And(t >= 1, t <= 1000, STRLEN(t) >= MIN_STR, STRLEN(t) <= self.max_str))
         self.val_terms.append(t)
         return TokStr(t)
 
@@ -94,7 +95,12 @@ class SyncWorld(World):
                     opts.append(('delete', u, None, tm))
             else:
                 opts.append(('create', u, None, None))
-        o = opts[c.choose(len(opts), 'op')]
+        forced = getattr(self, 'force_op', None)
+        if forced is not None:
+            self.force_op = None
+            o = [x for x in opts if x[:3] == tuple(forced)][0]
+        else:
+            o = opts[c.choose(len(opts), 'op')]
         kind, u, p, tm = o
         if kind == 'create':
             return I.mk_enum('Operation', 'Create', [u]), {'op': 'create', 'uuid': u}
@@ -114,7 +120,7 @@ class SyncWorld(World):
 
     def do_sync(self, r, avoid_snapshots=False, expect_ok=True):
         n0 = len(self.server.chain)
-        res = self.sync(self.dbs[r], self.server, avoid_snapshots)
+        res = self.sync(self.dbs[r], self.server, avoid_snapshots, client=r)
         self.history.append({'sync': r, 'versions_added': len(self.server.chain) - n0})
         if expect_ok and res.variant != 0:
             self.ctx.prove(False, 'sync returned Err', self.witness, {'class': 'sync-err', 'err': repr(res.fields[0])[:200]})
@@ -183,11 +189,12 @@ class SyncWorld(World):
                 steps.append({k: (ev(v) if is_sym(v) else v) for k, v in h.items()})
         return {'replicas': len(self.dbs), 'steps': steps}
 
-    def sample(self, extra=None):
+    def sample(self, extra=None, final_tasks=None, extra_steps=None):
         """a completed path: when the explorer wants a sample, pick one model of the path condition and
         return the concrete scenario plus the interpreter's predicted final states (replayed on the real
         build by the runner = translator validation)"""
-        out = {'history_shape': [('commit%d/%d' % (h['commit'], len(h['ops']))) if 'commit' in h else ('sync%d' % h['sync'])
+        out = {'history_shape': [('commit%d/%d' % (h['commit'], len(h['ops']))) if 'commit' in h else
+                                 (('sync%d' % h['sync']) if 'sync' in h else str({k: v for k, v in h.items()}))
                                  for h in self.history], 'versions': len(self.server.chain)}
         if extra:
             out.update(extra)
@@ -197,7 +204,10 @@ class SyncWorld(World):
         if m is None:
             return out
         out['scenario'] = dict(self.witness(m), kind='sync')
-        out['predicted'] = {'replicas': [self.concrete_tasks(r, m) for r in range(len(self.dbs))],
+        if extra_steps:
+            out['scenario']['steps'] = [s2 for s2 in out['scenario']['steps'] if 'orders' not in s2] + list(extra_steps)
+        out['predicted'] = {'replicas': [self.concrete_tasklist(final_tasks, m) for r in range(len(self.dbs))] if final_tasks is not None
+                            else [self.concrete_tasks(r, m) for r in range(len(self.dbs))],
                             'versions': len(self.server.chain),
                             'version_bytes': [show(p.payload.length if hasattr(p, 'payload') else None, m)
                                               for _, _, p in self.server.chain]}
@@ -206,8 +216,11 @@ class SyncWorld(World):
         return out
 
     def concrete_tasks(self, r, model):
+        return self.concrete_tasklist(self.tasks_of(self.dbs[r]).items, model)
+
+    def concrete_tasklist(self, items, model):
         res = {}
-        for u, tm in self.tasks_of(self.dbs[r]).items:
+        for u, tm in items:
             d = {}
             for k, v in tm.items:
                 d[show(k, model)] = concrete_value(v, model)
